@@ -1,5 +1,6 @@
 import ApolloModel.Model.Proto
 import ApolloModel.Model.Introspection
+import ApolloModel.Model.IntrospectionFull
 import Driver.D26
 open Apollo Apollo.Proto Apollo.Introspection Apollo.Exec
 namespace Driver
@@ -65,6 +66,260 @@ def skiproots (fname : String) : String :=
       | none => "<null>"
     "errors=" ++ toString r.errors.length ++ " keys=" ++ keys
 
+
+/-! ### `c24.full` / `c24.fullfilter`: whole introspection queries evaluated by the model -/
+namespace Full
+
+/-- `u<cp>.<cp>…` -/
+def decU (t : String) : Option String :=
+  match t.toList with
+  | 'u' :: rest =>
+    if rest.isEmpty then some ""
+    else (((String.ofList rest).splitOn ".").mapM (fun (d : String) => d.toNat?.map Char.ofNat)).map String.ofList
+  | _ => none
+
+def decOptU : Toks → Option (Option String × Toks)
+  | "-" :: r => some (none, r)
+  | t :: r => (decU t).map fun x => (some x, r)
+  | [] => none
+
+def decDep : Toks → Option (Deprecation × Toks)
+  | "-" :: r => some (none, r)
+  | "!" :: r => some (some none, r)
+  | "r" :: t :: r => (decU t).map fun x => (some (some x), r)
+  | _ => none
+
+mutual
+def decLit : Nat → Toks → Option (Value × Toks)
+  | 0, _ => none
+  | fuel + 1, ts =>
+    match ts with
+    | [] => none
+    | t :: rest =>
+      match t.toList with
+      | ['z'] => some (.null, rest)
+      | ['t'] => some (.bool true, rest)
+      | ['f'] => some (.bool false, rest)
+      | 'i' :: ds => (parseInt (String.ofList ds)).map fun z => (.int z, rest)
+      | 'd' :: ds => some (.float (String.ofList ds), rest)
+      | 's' :: ds => (decU (String.ofList ds)).map fun x => (.str x, rest)
+      | 'e' :: ds => some (.enum (String.ofList ds), rest)
+      | 'a' :: ds => do
+        let n ← (String.ofList ds).toNat?
+        let (xs, r) ← decLits fuel n rest
+        pure (.list xs, r)
+      | 'o' :: ds => do
+        let n ← (String.ofList ds).toNat?
+        let (kvs, r) ← decLitFields fuel n rest
+        pure (.obj kvs, r)
+      | _ => none
+def decLits : Nat → Nat → Toks → Option (List Value × Toks)
+  | 0, _, _ => none
+  | _ + 1, 0, ts => some ([], ts)
+  | fuel + 1, k + 1, ts => do
+    let (x, r) ← decLit fuel ts
+    let (xs, r2) ← decLits fuel k r
+    pure (x :: xs, r2)
+def decLitFields : Nat → Nat → Toks → Option (List (String × Value) × Toks)
+  | 0, _, _ => none
+  | _ + 1, 0, ts => some ([], ts)
+  | fuel + 1, k + 1, ts =>
+    match ts with
+    | [] => none
+    | key :: rest => do
+      let (x, r) ← decLit fuel rest
+      let (xs, r2) ← decLitFields fuel k r
+      pure ((tail1 key, x) :: xs, r2)
+end
+
+def decMany {α : Type} (one : Toks → Option (α × Toks)) : Nat → Toks → Option (List α × Toks)
+  | 0, ts => some ([], ts)
+  | k + 1, ts => do
+    let (x, r) ← one ts
+    let (xs, r2) ← decMany one k r
+    pure (x :: xs, r2)
+
+def decCount (one : Toks → Option (α × Toks)) : Toks → Option (List α × Toks)
+  | c :: r => do
+    let n ← c.toNat?
+    decMany one n r
+  | [] => none
+
+def decName : Toks → Option (String × Toks)
+  | t :: r => some (t, r)
+  | [] => none
+
+def decInputVal (fuel : Nat) (ts : Toks) : Option (IInputValue × Toks) := do
+  let (name, r) ← decName ts
+  let (desc, r) ← decOptU r
+  let (ty, r) ← decTy fuel r
+  let (default, r) ← (match r with
+    | "-" :: r2 => some (none, r2)
+    | "=" :: r2 => (decLit fuel r2).map fun (v, r3) => (some v, r3)
+    | _ => none)
+  let (dep, r) ← decDep r
+  pure ({ name := name, description := desc, ty := ty, default := default, deprecated := dep }, r)
+
+def decField (fuel : Nat) (ts : Toks) : Option (IField × Toks) := do
+  let (name, r) ← decName ts
+  let (desc, r) ← decOptU r
+  let (args, r) ← decCount (decInputVal fuel) r
+  let (ty, r) ← decTy fuel r
+  let (dep, r) ← decDep r
+  pure ({ name := name, description := desc, args := args, ty := ty, deprecated := dep }, r)
+
+def decEnumVal (ts : Toks) : Option (IEnumValue × Toks) := do
+  let (name, r) ← decName ts
+  let (desc, r) ← decOptU r
+  let (dep, r) ← decDep r
+  pure ({ name := name, description := desc, deprecated := dep }, r)
+
+def decType (fuel : Nat) (ts : Toks) : Option (ITypeDef × Toks) := do
+  let (name, r) ← decName ts
+  let (desc, r) ← decOptU r
+  match r with
+  | "S" :: r => do
+    let (u, r) ← decOptU r
+    pure ({ name := name, description := desc, kind := .scalar u }, r)
+  | "O" :: r => do
+    let (impls, r) ← decCount decName r
+    let (fs, r) ← decCount (decField fuel) r
+    pure ({ name := name, description := desc, kind := .object impls fs }, r)
+  | "I" :: r => do
+    let (impls, r) ← decCount decName r
+    let (fs, r) ← decCount (decField fuel) r
+    pure ({ name := name, description := desc, kind := .interface impls fs }, r)
+  | "U" :: r => do
+    let (ms, r) ← decCount decName r
+    pure ({ name := name, description := desc, kind := .union ms }, r)
+  | "E" :: r => do
+    let (vs, r) ← decCount decEnumVal r
+    pure ({ name := name, description := desc, kind := .enum vs }, r)
+  | "N" :: r => do
+    let (fs, r) ← decCount (decInputVal fuel) r
+    pure ({ name := name, description := desc, kind := .inputObject fs }, r)
+  | _ => none
+
+def decDirective (fuel : Nat) (ts : Toks) : Option (IDirective × Toks) := do
+  let (name, r) ← decName ts
+  let (desc, r) ← decOptU r
+  let (args, r) ← decCount (decInputVal fuel) r
+  let (rep, r) ← (match r with | "t" :: r2 => some (true, r2) | "f" :: r2 => some (false, r2) | _ => none)
+  let (locs, r) ← decCount decName r
+  pure ({ name := name, description := desc, args := args, repeatable := rep, locations := locs }, r)
+
+def decOptName : Toks → Option (Option String × Toks)
+  | "-" :: r => some (none, r)
+  | t :: r => some (some t, r)
+  | [] => none
+
+/-- the generator's (user) schema -/
+def decSchema (ts : Toks) : Option ISchema := do
+  let fuel := ts.length + 2
+  let (desc, r) ← decOptU ts
+  let (q, r) ← decOptName r
+  let (m, r) ← decOptName r
+  let (sub, r) ← decOptName r
+  let (types, r) ← decCount (decType fuel) r
+  let (dirs, r) ← decCount (decDirective fuel) r
+  if r.isEmpty then
+    pure { description := desc, query := q, mutation := m, subscription := sub, types := types, directives := dirs }
+  else none
+
+/-! the queries of harness/src/p24.rs -/
+def nd : Dirs := { skip := none, incl := none }
+def f (name : String) (sub : List Sel := []) : Sel := .field none name [] nd sub
+def fInc (name : String) (v : AVal) (sub : List Sel) : Sel := .field none name [("includeDeprecated", v)] nd sub
+def sp (name : String) : Sel := .spread name nd
+
+/-- `kind name ofType { kind name ofType { … } }` with `n` further `ofType` selections -/
+def typeRefSels : Nat → List Sel
+  | 0 => [f "kind", f "name"]
+  | n + 1 => [f "kind", f "name", f "ofType" (typeRefSels n)]
+
+def fullFrags : AList Frag :=
+  [("FullType", { cond := "__Type", sub :=
+      [f "kind", f "name", f "description", f "specifiedByURL",
+       fInc "fields" (.bool true) [f "name", f "description", fInc "args" (.bool true) [sp "InputValue"], f "type" [sp "TypeRef"],
+         f "isDeprecated", f "deprecationReason"],
+       fInc "inputFields" (.bool true) [sp "InputValue"],
+       f "interfaces" [sp "TypeRef"],
+       fInc "enumValues" (.bool true) [f "name", f "description", f "isDeprecated", f "deprecationReason"],
+       f "possibleTypes" [sp "TypeRef"]] }),
+   ("InputValue", { cond := "__InputValue", sub :=
+      [f "name", f "description", f "type" [sp "TypeRef"], f "defaultValue", f "isDeprecated", f "deprecationReason"] }),
+   ("TypeRef", { cond := "__Type", sub := typeRefSels 9 })]
+
+/-- graphql-js 16 `getIntrospectionQuery` with every option on (`FULL_QUERY`) -/
+def fullQuery : List Sel :=
+  [f "__schema" [f "description", f "queryType" [f "name"], f "mutationType" [f "name"], f "subscriptionType" [f "name"],
+     f "types" [sp "FullType"],
+     f "directives" [f "name", f "description", f "isRepeatable", f "locations", fInc "args" (.bool true) [sp "InputValue"]]]]
+
+/-- `FILTER_QUERY` -/
+def filterQuery : List Sel :=
+  [f "__schema" [
+     f "types" [f "name", f "fields" [f "name", fInc "args" (.var "n") [f "name"]], fInc "enumValues" (.bool false) [f "name"],
+       f "inputFields" [f "name"]],
+     f "directives" [f "name", fInc "args" (.bool false) [f "name"]]]]
+
+/-! canonical digest of a response value (the same function is in harness/src/p24.rs) -/
+def fnvByte (h : UInt64) (b : UInt8) : UInt64 := (h ^^^ b.toUInt64) * 0x100000001b3
+
+def fnvStr (h : UInt64) (s : String) : UInt64 := s.toUTF8.foldl fnvByte h
+
+mutual
+def hashJson (h : UInt64) : Json → UInt64
+  | .null => fnvByte h 0
+  | .bool b => fnvByte (fnvByte h 1) (if b then 1 else 0)
+  | .int z => fnvByte (fnvStr (fnvByte h 2) (toString z)) 0xff
+  | .float t => fnvByte (fnvStr (fnvByte h 6) t) 0xff
+  | .str s => fnvByte (fnvStr (fnvByte h 3) s) 0xff
+  | .arr xs => fnvByte (hashList (fnvByte h 4) xs) 0xfe
+  | .obj kvs => fnvByte (hashFields (fnvByte h 5) kvs) 0xfe
+def hashList (h : UInt64) : List Json → UInt64
+  | [] => h
+  | x :: xs => hashList (hashJson h x) xs
+def hashFields (h : UInt64) : List (String × Json) → UInt64
+  | [] => h
+  | (k, v) :: rest => hashFields (hashJson (fnvByte (fnvStr h k) 0xff) v) rest
+end
+
+def digest (j : Json) : String := toString (hashJson 0xcbf29ce484222325 j).toNat
+
+def nameOf : Json → String
+  | .obj kvs => match kvs.find? (·.1 == "name") with | some (_, .str n) => n | _ => "?"
+  | _ => "?"
+
+/-- one digest per top-level field of `data.__schema`; `types` and `directives` element by element, in
+    the order of the response -/
+def summary (o : Outcome) : String :=
+  match o with
+  | .outOfFuel => "out-of-fuel"
+  | .response r =>
+    let body := match r.data with
+      | none => ["data=null"]
+      | some m =>
+        match AList.get? m "__schema" with
+        | some (.obj kvs) =>
+          kvs.flatMap fun (k, v) =>
+            match v with
+            | .arr xs => if k == "types" ∨ k == "directives" then xs.map fun x => k ++ ":" ++ nameOf x ++ "=" ++ digest x else [k ++ "=" ++ digest v]
+            | v => [k ++ "=" ++ digest v]
+        | _ => ["schema=?"]
+    " ".intercalate (("errors=" ++ toString r.errors.length) :: body)
+
+def runFull (schemaField : String) (sels : List Sel) (frags : AList Frag) (vars : AList Json) : String :=
+  match decSchema (((String.ofList (decodeField schemaField)).splitOn " ").filter (· ≠ "")) with
+  | none => "bad-case"
+  | some user => summary (partialExecute 64 4096 (apolloSchema user) frags vars sels)
+
+def nvar (t : String) : AList Json :=
+  let v := String.ofList (decodeField t)
+  if v == "t" then [("n", .bool true)] else if v == "f" then [("n", .bool false)] else if v == "z" then [("n", .null)] else []
+
+end Full
+
 end D24
 
 def c24 (stream : String) (fs : List String) : String :=
@@ -73,6 +328,8 @@ def c24 (stream : String) (fs : List String) : String :=
   | "c24.filter", [es, incl] => D24.filter es incl
   | "c24.possible", [n, k, os] => D24.possible n k os
   | "c24.skiproots", [f] => D24.skiproots f
+  | "c24.full", [sch] => D24.Full.runFull sch D24.Full.fullQuery D24.Full.fullFrags []
+  | "c24.fullfilter", [sch, n] => D24.Full.runFull sch D24.Full.filterQuery [] (D24.Full.nvar n)
   | _, _ => "unknown-stream"
 
 end Driver
